@@ -18,9 +18,9 @@ PROBE_STATS = {
 }
 
 COMPONENTS = {
-    'real': ['flex built from the current /repo tree', 'm4', 'generated scanner compiled unmodified (clang -O0, ASan+UBSan)',
-             'skeleton input routine / glibc stdio when the source kind is stdio'],
-    'stubbed': ['input sources (plan-driven read sizes, EOF, EINTR, EIO)', 'yyalloc/yyrealloc/yyfree (ledger, junk fill, always-moving realloc, injected failure)',
+    'real': ['flex built from the current /repo tree', 'm4', 'generated scanner compiled unmodified (clang -O0, ASan+UBSan): C non-reentrant, C reentrant, c99 back end, C++ lexer class (yyFlexLexer subclassed through %option yyclass)',
+             'skeleton input routine / glibc stdio when the source kind is stdio; yyread() of %option read'],
+    'stubbed': ['input sources (plan-driven read sizes, EOF, EINTR, EIO): YY_INPUT / yyread for C, LexerInput for C++ (std::istream objects only identify the source)', 'yyalloc/yyrealloc/yyfree (ledger, junk fill, always-moving realloc, injected failure)',
                 'yywrap', 'fatal-error hook (longjmp)', 'rule actions (op interpreter)', 'instance scheduler (baton)'],
 }
 
@@ -155,6 +155,7 @@ def work(prop, ctx, idx, n_plans):
             wr.notes.append('scn %d unbuildable (%s): %s' % (idx, b.stage, b.msg.strip()[:200]))
         return wr
     wr.scenarios = 1
+    wr.stats['back-end:' + sc.flavor] += 1
     plans = []
     for j in range(n_plans):
         prng = ctx.rng('scn', idx, 'plan', j)
